@@ -558,6 +558,10 @@ class Session:
             c["time"] = str(o["time"])
         if "meta" in o:
             nest = _nest_of(o["meta"])
+            mv = o["meta"]
+            if isinstance(mv, dict) and list(mv) == ["big"] and isinstance(mv["big"], str) \
+                    and len(mv["big"]) > 100000 and set(mv["big"]) == {"M"}:
+                nest = {"rep": len(mv["big"])}        # rebuilt inside the driver
             c["meta"] = {"v": o["meta"]} if nest is None else nest
         if o.get("raw") is not None:
             c["raw"] = o["raw"].hex()
